@@ -395,6 +395,12 @@ class SimulationAlgorithmGraphBase
         return t;
         }
 
+    bool IsComplete()
+    // tells if the simulation has been flagged as complete
+        {
+        return complete;
+        }
+
     std::vector<double> & GetSampledT()
         {
         return sampled_t;
